@@ -374,6 +374,15 @@ diff_sds(int32 sd1_id, int32 sd2_id, int32 ref1, int32 ref2, diff_opt_t *opt)
     /* flag to compare SDSs local attributes */
     if (opt->sa == 1) {
         nfound += diff_sds_attrs(sds1_id, nattrs1, sds2_id, nattrs2, sds1_name, opt);
+        /* and the attributes of its dimensions */
+        for (i = 0; i < rank1 && rank1 == rank2; i++) {
+            int32 dim1 = SDgetdimid(sds1_id, i), dim2 = SDgetdimid(sds2_id, i);
+            int32 dsize, dtype, dnattrs1, dnattrs2;
+            char  dim_name[H4_MAX_NC_NAME];
+            if (dim1 != FAIL && dim2 != FAIL && SDdiminfo(dim2, dim_name, &dsize, &dtype, &dnattrs2) != FAIL &&
+                SDdiminfo(dim1, dim_name, &dsize, &dtype, &dnattrs1) != FAIL)
+                nfound += diff_sds_attrs(dim1, dnattrs1, dim2, dnattrs2, dim_name, opt);
+        }
     }
 
     /*-------------------------------------------------------------------------
